@@ -15,7 +15,7 @@ CONSTANTS
   TreeIds = {1, 2, 3, 4, 5, 6, 7, 8, 9, 10}
   SparseIds = {1, 2, 4}
   XP = "respect"
-  Strict = FALSE
+  Strict = "none"
   Emit = FALSE
 INVARIANTS Inv_C24
 VIEW View
